@@ -49,24 +49,35 @@ def sym_da_state(ip, kind, name="ks"):
 
 
 def sym_kernel(ip, kind, keys=("a", "b"), name="k", **extra):
+    """a kernel built by its REAL constructor from symbolic arguments (so the constructor's wiring of arguments to the fields the
+    methods read is part of every unit that uses it), given a model stub through the real set_model()"""
     c = ip.ctx
     rel, kcls, _ = KERNELS[kind]
-    fields = dict(_model=model_stub(ip), position_keys=tuple(keys), identifier=f"{name}_id",
-                  da_target_accept=c.fresh(f"{name}.delta", Real), da_gamma=c.fresh(f"{name}.gamma", Real),
-                  da_kappa=c.fresh(f"{name}.kappa", Real), da_t0=c.fresh(f"{name}.t0", Int), initial_step_size=c.fresh(f"{name}.eps0", Real))
+    kw = dict(da_target_accept=c.fresh(f"{name}.delta", Real), da_gamma=c.fresh(f"{name}.gamma", Real),
+              da_kappa=c.fresh(f"{name}.kappa", Real), da_t0=c.fresh(f"{name}.t0", Int), initial_step_size=c.fresh(f"{name}.eps0", Real))
+    args = [tuple(keys)]
     if kind == "MH":
-        fields["da_tune_step_size"] = extra.pop("da_tune_step_size", True)
-        fields["_proposal_fn"] = PyFn(lambda ip_, key, st, step: new_obj(ip_, "liesel/goose/mh_kernel.py::MHProposal",
-                                      position={k: ip_.uf("user_prop", z3.Const(f"str:{k}", U), ip_.to_U(key), ip_.to_U(st), step) for k in keys},
-                                      log_correction=ip_.uf("user_corr", ip_.to_U(key), ip_.to_U(st), step, sort=ip_.ctx.float_sort)), "proposal_fn")
+        kw["da_tune_step_size"] = extra.pop("da_tune_step_size", True)
+        args.append(PyFn(lambda ip_, key, st, step: new_obj(ip_, "liesel/goose/mh_kernel.py::MHProposal",
+                         position={k: ip_.uf("user_prop", z3.Const(f"str:{k}", U), ip_.to_U(key), ip_.to_U(st), step) for k in keys},
+                         log_correction=ip_.uf("user_corr", ip_.to_U(key), ip_.to_U(st), step, sort=ip_.ctx.float_sort)), "proposal_fn"))
     if kind == "IWLS":
-        fields["chol_info_fn"] = None
+        kw["chol_info_fn"] = extra.pop("chol_info_fn", None)
     if kind in ("HMC", "NUTS"):
-        fields["mm_diag"] = extra.pop("mm_diag", True)
-        fields["initial_inverse_mass_matrix"] = None
+        kw["mm_diag"] = extra.pop("mm_diag", True)
+        kw["initial_inverse_mass_matrix"] = extra.pop("initial_inverse_mass_matrix", None)
         if kind == "NUTS":
-            fields["max_treedepth"] = c.fresh(f"{name}.max_treedepth", Int)
+            kw["max_treedepth"] = extra.pop("max_treedepth", c.fresh(f"{name}.max_treedepth", Int))
         else:
-            fields["num_integration_steps"] = c.fresh(f"{name}.L", Int)
-    fields.update(extra)
-    return new_obj(ip, f"{rel}::{kcls}", tag=name, **fields)
+            kw["num_integration_steps"] = extra.pop("num_integration_steps", c.fresh(f"{name}.L", Int))
+    for k_ in list(extra):
+        if k_ in ("da_target_accept", "da_gamma", "da_kappa", "da_t0", "initial_step_size"):
+            kw[k_] = extra.pop(k_)
+    k = ip.call(ip.repo(f"{rel}::{kcls}"), args, kw)
+    k.tag = name
+    k.ctor_args = dict(kw, position_keys=tuple(keys))
+    ip.call(method(ip, k, "set_model"), [extra.pop("_model", None) or model_stub(ip)], {})
+    ip.setattr(k, "identifier", extra.pop("identifier", f"{name}_id"))
+    for k_, v in extra.items():
+        ip.setattr(k, k_, v)
+    return k
